@@ -26,6 +26,7 @@ import random
 from . import c06_real, common, tlc
 
 PID = 'C06'
+SIGNATURES = c06_real.SIGNATURES          # known finding C06-ring5-two-leaves (cyclopentane C5H10: ring rotation not found)
 
 
 def run_ismags(G, H, mode, sym, cache=None, pre=None):
@@ -256,7 +257,7 @@ def widened(rng, count):
 def all_cases(tier, seed):
     rng = random.Random(seed)
     yield from small_scope(tier)
-    yield from widened(random.Random(seed + 1000003), 360 if tier == 'quick' else 9000)
+    yield from widened(random.Random(seed + 1000003), 252 if tier == 'quick' else 3000)
     yield from structured(rng, 150 if tier == 'quick' else 4000)
     for r in coloured_rings(rng):
         if tier != 'quick' or len(r[1]['nodes']) <= 6:
@@ -340,7 +341,7 @@ def _run_events(args):
         work = tlc.scratch('c06_')
         try:
             tf = tlc.write_json(work, 'trace.json', [{k: e[k] for k in ('G', 'H', 'mode', 'sym', 'Y')} for e in shard])
-            res = tlc.run('Trace_SubIso', 'SPECIFICATION Spec\n', dump=True, env=dict(c06_real.JOPTS, TRACE_FILE=tf), workdir=work, workers=1, timeout=3400)
+            res = tlc.run('Trace_SubIso', 'SPECIFICATION Spec\n', dump=True, env=dict(c06_real.JOPTS if args[0] == 'quick' else {}, TRACE_FILE=tf), workdir=work, workers=1, timeout=3400)
             verdicts = {st['tid']: st['verdict'] for st in res.states() if st['verdict'] != 'pending'}
         finally:
             shutil.rmtree(work, ignore_errors=True)
@@ -384,14 +385,14 @@ def judge_events(events, ev, vd):
 
 
 FLOORS_REAL = {          # (quick, thorough) minimum number of JUDGED events per feature: the real-pattern part cannot pass vacuously
-    'real:self judged': (100, 1500), 'real:removed judged': (300, 4000), 'real:attached judged': (100, 1500), 'real:inside judged': (100, 1500),
-    'real:other judged': (50, 700), 'real:self symmetric pattern': (40, 700), 'real:self |Aut| >= 12': (10, 150),
-    'real:removed symmetric pattern, symmetry on, isomorphisms exist': (40, 600), 'real:inside symmetric pattern, symmetry on, isomorphisms exist': (20, 300),
-    'real:attached lcs, pattern larger than graph': (80, 1200), 'history:chain queries with a shared cache': (100, 250),
+    'real:self judged': (100, 1000), 'real:removed judged': (300, 3000), 'real:attached judged': (60, 400), 'real:inside judged': (100, 1000),
+    'real:other judged': (50, 300), 'real:self symmetric pattern': (40, 400), 'real:self |Aut| >= 12': (10, 100),
+    'real:removed symmetric pattern, symmetry on, isomorphisms exist': (40, 400), 'real:inside symmetric pattern, symmetry on, isomorphisms exist': (20, 200),
+    'real:attached lcs, pattern larger than graph': (60, 400), 'history:chain queries with a shared cache': (100, 250),
     'history:twins queries with a shared cache': (60, 60), 'history:twins symmetric pattern': (20, 20),
-    'judged by enumeration AND certificate': (300, 4000),
+    'judged by enumeration AND certificate': (300, 1500),
 }
-FLOORS_SYN = {'widened:three-colours': (300, 8000), 'widened:pattern-larger': (250, 6000), 'widened:isolated-nodes': (250, 6000)}
+FLOORS_SYN = {'widened:three-colours': (250, 2500), 'widened:pattern-larger': (250, 2500), 'widened:isolated-nodes': (250, 2500)}
 
 
 def run(tier, seed, ev, vd):
@@ -423,7 +424,7 @@ def run(tier, seed, ev, vd):
     only = os.environ.get('C06_ONLY', '')          # debugging / mutation testing: 'real' or 'syn' part alone (never a complete check: exit 2 at the end)
     if only:
         tasks = [t for t in tasks if (t[0] == 'syn') == (only == 'syn')]
-    tot = c06_real.run_tasks(tasks, (10, 60) if quick else (20, 180), _run_events, nreal=4 if quick else None)
+    tot = c06_real.run_tasks(tasks, (10, 60) if quick else (12, 180), _run_events, nreal=6 if quick else None)
     if tot['machinery']:
         raise tlc.MachineryError('C06: %d certificate / harness problems, first: %s' % (len(tot['machinery']), tot['machinery'][0][:1500]))
     ev.states += tot['d']
@@ -547,6 +548,24 @@ def selftest(seed):
     for (t, want), v in zip(tampered, verdicts):
         assert v.startswith(want), (want, v)
     print('selftest C06: certificate judges on real patterns (charmm VAL, 12 symmetries, 72 isomorphisms):', verdicts[3:])
+    # the signature of the known finding C06-ring5-two-leaves is narrow: only duplicates of one class, symmetry on, on a pattern
+    # with a 5-ring whose atoms each carry exactly two leaves
+    def ring(n, leaves):
+        ns, es = cycle(n)
+        k = n
+        for c in range(1, n + 1):
+            for _ in range(leaves):
+                k += 1
+                ns, es = ns + [k], es + [(c, k)]
+        return mk(ns, es)
+    sig = SIGNATURES['C06-ring5-two-leaves']
+    dup = 'two-representatives-of-one-class'
+    assert sig('trace-rejected', {'H': ring(5, 2), 'sym': True, 'verdict': dup})
+    assert not sig('trace-rejected', {'H': ring(6, 2), 'sym': True, 'verdict': dup})
+    assert not sig('trace-rejected', {'H': ring(5, 1), 'sym': True, 'verdict': dup})
+    assert not sig('trace-rejected', {'H': ring(5, 2), 'sym': True, 'verdict': 'class-without-representative'})
+    assert not sig('trace-rejected', {'H': ring(5, 2), 'sym': False, 'verdict': 'isomorphism-yielded-twice'})
+    print('selftest C06: signature of the known finding matches cyclopentane-with-leaves duplicates only')
     import os
     for k, p, d in vd.violations:
         os.path.exists(p) and os.remove(p)
